@@ -81,6 +81,11 @@ func (e *exec) countersVsContents(where string) {
 		pending = pending || s.PendingCount
 	}
 	if g, ok := e.gauge("prometheus_tsdb_head_chunks"); ok && g != float64(chunks) {
+		if g < float64(chunks) && e.mixedOOO {
+			// listed finding: an out-of-order chunk with several sample types was counted once, subtracted per type
+			fail("known:"+TagGaugeOOOMixed, "prometheus_tsdb_head_chunks=%v but the head holds %d chunks (after out-of-order chunks with mixed sample types)", g, chunks)
+			return
+		}
 		fail("head-chunks", "prometheus_tsdb_head_chunks=%v but the head holds %d chunks", g, chunks)
 		return
 	}
